@@ -87,7 +87,19 @@ fn run_case(t: &mut Tape, c: &mut Case, huge: bool) -> Result<(), String> {
         let want = flatten(&expected_forest);
         let obs = read_all::<T>(&bytes, &cfg);
         c.checks += want.len() as u64;
-        expect_exact(&obs, &want, "reading back the writer's output").map_err(|m| format!("{}\n  ops: {}\n  bytes({}): {}", m, render_ops(&ops), bytes.len(), short_bytes(&bytes)))
+        expect_exact(&obs, &want, "reading back the writer's output").map_err(|m| format!("{}\n  ops: {}\n  bytes({}): {}", m, render_ops(&ops), bytes.len(), short_bytes(&bytes)))?;
+        // and once more the way a file or socket delivers it: small buffer and/or short reads
+        let cap = *t.pick(&[None, Some(16usize), Some(17), Some(33), Some(64), Some(4096)]);
+        let chunk = *t.pick(&[0usize, 1, 3, 7, 16, 61]);
+        if cap.is_some() || chunk > 0 {
+            let cfg2 = ReadCfg { capacity: cap, ..cfg.clone() };
+            let steps: Vec<RStep> = if chunk == 0 { vec![] } else { (0..bytes.len().div_ceil(chunk)).map(|_| RStep::Chunk(chunk)).collect() };
+            let obs2 = read_from::<T, _>(ScriptRead::new(&bytes, steps), &cfg2, item_bound(bytes.len()));
+            c.label("read_back_chunked_or_small_buffer");
+            expect_exact(&obs2, &want, "reading back the writer's output through a small buffer / short reads")
+                .map_err(|m| format!("{}\n  capacity {:?}, reads of {} bytes\n  ops: {}\n  bytes({}): {}", m, cap, chunk, render_ops(&ops), bytes.len(), short_bytes(&bytes)))?;
+        }
+        Ok(())
     })
 }
 
